@@ -102,7 +102,7 @@ Step ==
     /\ LET c == Cases[ci + 1]
            f == Failures(c)
        IN /\ nfail' = nfail + (IF f = {} THEN 0 ELSE 1)
-          /\ (f = {} \/ PrintT(ToJson([vp |-> "FAIL", id |-> c.id, clauses |-> SetToSeq(f)])))
+          /\ IF f = {} THEN TRUE ELSE PrintT(ToJson([vp |-> "FAIL", id |-> c.id, clauses |-> SetToSeq(f)]))
 Done == ci = Len(Cases) /\ UNCHANGED vars
 Next == Step \/ Done
 Spec == Init /\ [][Next]_vars
